@@ -157,15 +157,19 @@ func w7scripts() []func() []string {
 			rwB, _ := m.MarshalLogs(rw)
 			rol, rwl := ro.ResourceLogs().At(0).ScopeLogs().At(0).LogRecords().At(0), rw.ResourceLogs().At(0).ScopeLogs().At(0).LogRecords().At(0)
 			moves := map[string]func(){
-				"resourcelogs":   func() { ro.ResourceLogs().At(0).MoveTo(rw.ResourceLogs().At(0)) },
-				"scopelogs":      func() { ro.ResourceLogs().At(0).ScopeLogs().At(0).MoveTo(rw.ResourceLogs().At(0).ScopeLogs().At(0)) },
-				"logrecord":      func() { rol.MoveTo(rwl) },
-				"map":            func() { rol.Attributes().MoveTo(rwl.Attributes()) },
-				"value":          func() { rol.Body().MoveTo(rwl.Body()) },
-				"resource":       func() { ro.ResourceLogs().At(0).Resource().MoveTo(rw.ResourceLogs().At(0).Resource()) },
-				"scope":          func() { ro.ResourceLogs().At(0).ScopeLogs().At(0).Scope().MoveTo(rw.ResourceLogs().At(0).ScopeLogs().At(0).Scope()) },
-				"moveandappend":  func() { ro.ResourceLogs().MoveAndAppendTo(rw.ResourceLogs()) },
-				"moveandappend2": func() { ro.ResourceLogs().At(0).ScopeLogs().At(0).LogRecords().MoveAndAppendTo(rw.ResourceLogs().At(0).ScopeLogs().At(0).LogRecords()) },
+				"resourcelogs": func() { ro.ResourceLogs().At(0).MoveTo(rw.ResourceLogs().At(0)) },
+				"scopelogs":    func() { ro.ResourceLogs().At(0).ScopeLogs().At(0).MoveTo(rw.ResourceLogs().At(0).ScopeLogs().At(0)) },
+				"logrecord":    func() { rol.MoveTo(rwl) },
+				"map":          func() { rol.Attributes().MoveTo(rwl.Attributes()) },
+				"value":        func() { rol.Body().MoveTo(rwl.Body()) },
+				"resource":     func() { ro.ResourceLogs().At(0).Resource().MoveTo(rw.ResourceLogs().At(0).Resource()) },
+				"scope": func() {
+					ro.ResourceLogs().At(0).ScopeLogs().At(0).Scope().MoveTo(rw.ResourceLogs().At(0).ScopeLogs().At(0).Scope())
+				},
+				"moveandappend": func() { ro.ResourceLogs().MoveAndAppendTo(rw.ResourceLogs()) },
+				"moveandappend2": func() {
+					ro.ResourceLogs().At(0).ScopeLogs().At(0).LogRecords().MoveAndAppendTo(rw.ResourceLogs().At(0).ScopeLogs().At(0).LogRecords())
+				},
 			}
 			for name, f := range moves {
 				if !w7panics(f) {
